@@ -94,6 +94,9 @@ int libxmp_virt_on(struct context_data *ctx, int num)
 	p->virt.virt_channels = p->virt.num_tracks;
 
 	if (HAS_QUIRK(QUIRK_VIRTUAL)) {
+		/* an absurd XMP_PLAYER_VOICES setting must fail, not overflow */
+		if (num > INT_MAX - p->virt.virt_channels)
+			goto err;
 		p->virt.virt_channels += num;
 	} else if (num > p->virt.virt_channels) {
 		num = p->virt.virt_channels;
